@@ -28,7 +28,7 @@ func MustDo(fn *ssa.Function, pred func(ssa.Instruction) bool, depth int, onlySu
 	if len(exits) == 0 {
 		return false
 	}
-	h := Ungated(CutSpec{Fn: fn, GateInstr: lifted, Sink: func(in ssa.Instruction) bool { return exits[in] }})
+	h := Ungated(CutSpec{Fn: fn, GateInstr: lifted, NoLift: true, Sink: func(in ssa.Instruction) bool { return exits[in] }})
 	return len(h) == 0
 }
 
@@ -180,8 +180,29 @@ func LiftE(pred func(ssa.Instruction) bool, edgesOf func(*ssa.Function) map[Edge
 		if len(exits) == 0 {
 			return false
 		}
-		h := Ungated(CutSpec{Fn: fn, GateInstr: lifted, GateEdge: edgesOf(fn), Sink: func(in ssa.Instruction) bool { return exits[in] }})
+		h := Ungated(CutSpec{Fn: fn, GateInstr: lifted, GateEdge: edgesOf(fn), NoLift: true, Sink: func(in ssa.Instruction) bool { return exits[in] }})
 		return len(h) == 0
 	}
 	return lifted
+}
+
+// ModulePath is the import path prefix of the analysed module.
+var ModulePath = "github.com/rqlite/rqlite/v10"
+
+// InModuleFn reports whether fn belongs to the analysed module.
+func InModuleFn(fn *ssa.Function) bool {
+	if fn == nil {
+		return false
+	}
+	if fn.Pkg == nil {
+		if fn.Parent() != nil {
+			return InModuleFn(fn.Parent())
+		}
+		if o := fn.Origin(); o != nil && o != fn {
+			return InModuleFn(o)
+		}
+		return false
+	}
+	p := fn.Pkg.Pkg.Path()
+	return len(p) >= len(ModulePath) && p[:len(ModulePath)] == ModulePath
 }
